@@ -526,3 +526,22 @@ def c20_post(tier, r):
 
 PROPS["C20"]["variants"] = c20_variants_strace
 PROPS["C20"]["post"] = c20_post
+
+
+# Additions made while strengthening the checks against the round-3 seeded regressions (DESIGN.md section 9)
+RULE_ADDENDA = {
+    "C04": "Also: ports outside 0..65535 (incl. 2^16+p and 2^32+443) aimed at a loopback address of the process's own whose port 443 is a trap listener (nothing may be dialled), "
+           "and redirects whose Location is an http:// or ftp:// address (must not be followed).",
+    "C08": "Also: at the end of every main-style session each thread page in the browser history must hold, at every loaded position, the ancestor or reply of its own opened item "
+           "(reference views, checked under the UI's lock); fan-out and linearizability sessions are bounded by 120 s with a stuck detector.",
+    "C10": "Also: members written as JSON null instead of being left out; remote page addresses that differ only in letter case.",
+    "C11": "Also: timestamps in hours, milliseconds or nanoseconds (items of one second told apart by the fraction only); generated worlds contain posts published within the same second.",
+    "C13": "Also: widths 250..1050.",
+    "C15": "Also: a quarter of the width sequences follow the UI's pattern (W, W-d, W', W'-d ... with d in {4,8,2,1}).",
+    "C16": "Also: the terminal is resized while a slow media hook is running; the size a frame is judged against is the one the harness announced last, not servitor's own field.",
+    "C17": "Also: keys with printf-like text (50%, %d items, %w, %!s(MISSING)); GetMarkup is classified against a reference for every content x mediaType combination.",
+    "C19": "Also: keys and tables spelled in other letter case (the decoder matches case-insensitively).",
+    "C20": "Also: hook arguments with doubled percent signs (%%url); links in running text must reach the hook as */* whatever was opened before in the same process.",
+}
+for _k, _t in RULE_ADDENDA.items():
+    PROPS[_k]["rule"] += " " + _t
